@@ -20,7 +20,7 @@ claim('C16', 'exploration',
       'DESIGN.md section 4, C16')
 claim('C07', 'exploration',
       'Hypothesis-generated sorted fragment lists (NlaIII / scCHIC / plain fragments, several cells, duplicates arriving after unrelated molecules, short and wide spans); for every input ALL ejection schedules (None, 0..n) x both pooling methods are executed on MoleculeIterator and compared with the never-eject partition and with the generator\'s truth classes; exactly-once emission is checked.',
-      'Trusted: pysam AlignedSegment. UMIs compared exactly; clean equality classes; spans < cache_size/4, or wider spans restricted by the documented cache_size/2 ejection margin (in_domain). Exhaustive over schedules per input, sampled over inputs.',
+      'Trusted: pysam AlignedSegment. UMIs compared exactly; clean equality classes (or, for bridging plain fragments, each pooling method against its own never-eject partition); optional fragment cap; one or two contigs; spans < cache_size/4, or wider spans restricted by the documented cache_size/2 ejection margin (in_domain). Exhaustive over schedules per input, sampled over inputs.',
       'property-based testing (Hypothesis) with exhaustive schedule enumeration per input; differential oracle (never-eject) + ground-truth partition',
       'DESIGN.md section 4, C07')
 claim('C13', 'exploration',
@@ -45,7 +45,7 @@ claim('C05', 'exploration',
       'DESIGN.md section 4, C05')
 claim('C06', 'exploration',
       'Hypothesis-generated libraries with simulator truth (cells, packed sites on both strands, UMI neighbourhoods incl. N, PCR copies, clips) through MoleculeIterator (hamming 0/1/2, radius 0 and >0, cap, several ejection intervals): soundness of every molecule and, for hamming 0 / radius 0, equality with the truth partition; and through the command line tagger: exactly one non-duplicate fragment per molecule, RC permutation, af/TF, plus histories (re-tagging, input with preset duplicate bits and RC tags).',
-      'Trusted: pysam/htslib, pysamiterators. For hamming>0 only soundness; with a cap no idempotence (overflow depends on input order); rejection-reason strings of rejected fragments are not compared.',
+      'Trusted: pysam/htslib, pysamiterators. For hamming>0 only soundness; history relations only when the admissible grouping is unique (no UMI / site chain) and without a cap (overflow depends on input order); rejection-reason strings of rejected fragments are not compared; plain Fragment classes: soundness only.',
       'property-based testing (Hypothesis) with a ground-truth library simulator; metamorphic history relations (retag, preset flags)',
       'DESIGN.md section 4, C06')
 claim('C08', 'exploration',
@@ -70,7 +70,7 @@ claim('C12', 'exploration',
       'DESIGN.md section 4, C12')
 claim('C19', 'fault_enumeration',
       'Hypothesis-generated write histories over up to 200 target files (gzip / plain, maxHandles 1..40, pruneEvery 1..50, explicit close calls) with a generated fault plan for open() (descriptor limit k>=1, transient failures of the n-th open, permanent failure of one path) injected through counting wrappers around the real open / gzip.open inside the handlelimiter module; driven on HandleLimiter directly and through FastqHandle(single_cell=True); every file is read back and compared with the model of returned writes, live handles must be zero after close, and a raise is accepted only if the last failed attempt happened with nothing else open.',
-      'Faults at open() only; gzip module and file system trusted. The multi-pass bamSplitByTag loop and a real RLIMIT_NOFILE are not exercised.',
+      'Faults at open() only; gzip module and file system trusted. Parts for the multi-pass bamSplitByTag loop and for a real RLIMIT_NOFILE lowered in a child process are included.',
       'model-based property-based testing (Hypothesis operation sequences + generated fault plans) against a dictionary model',
       'DESIGN.md section 4, C19')
 claim('C18', 'exploration',
